@@ -17,7 +17,9 @@ LEAN_HELPERS = ["FastTicc.Proofs.Admm", "FastTicc.Proofs.Compose", "FastTicc.Pro
 LEAN_TRANSLATED = {"FastTicc.Props.TrSoft": ["soft_threshold_prox"],
                    "FastTicc.Props.TrZUpdate": ["soft_threshold_prox", "compute_lambda_sum", "admm_update_z", "locations_compressed",
                                                 "locations_index_slices"],
-                   "FastTicc.Props.TrAdmmLoop": ["run_admm_optimization", "admm_update_u", "admm_update_z"]}
+                   "FastTicc.Props.TrAdmmLoop": ["run_admm_optimization", "admm_update_u", "admm_update_z"],
+                   "FastTicc.Props.TrCheck": ["check_convergence", "admm_update_x", "reinflate_matrix", "run_admm_optimization", "admm_update_u",
+                                              "admm_update_z"]}
 RULE = ("(a) step functions (soft threshold, lambda sum, Z update, U update, stopping rule) on dyadic inputs for all (N,W) "
         "with NW<=8 (thorough: <=24), scalar and matrix lambda, rho in {1/8..8}, vs the model at Rat; X update against its "
         "stationarity characterisation; (b) the entry point on generated PSD covariances (full rank, rank deficient, "
